@@ -492,9 +492,9 @@ impl Azks {
         };
 
         // handle the right child in the current task
-        if !right_azks_element_set.is_empty() {
+        let right_result = if !right_azks_element_set.is_empty() {
             let right_child_label = current_node.get_child_label(Direction::Right);
-            let (mut right_node, right_is_new, right_num_inserted) =
+            Some(
                 Azks::recursive_batch_insert_nodes::<TC, _>(
                     storage,
                     right_child_label,
@@ -503,18 +503,34 @@ impl Azks {
                     insert_mode,
                     child_parallel_levels,
                 )
-                .await?;
+                .await,
+            )
+        } else {
+            None
+        };
 
+        // join on the handle for the left child, if present. This happens before the outcome of
+        // the right child is looked at: a spawned task must never outlive a failed insertion,
+        // because it would keep writing nodes of the abandoned epoch after the caller has rolled
+        // the transaction back (i.e. straight to the database).
+        let left_result = match maybe_handle {
+            Some(handle) => Some(
+                handle
+                    .await
+                    .map_err(|e| AkdError::Parallelism(ParallelismError::JoinErr(e.to_string()))),
+            ),
+            None => None,
+        };
+
+        if let Some(right_result) = right_result {
+            let (mut right_node, right_is_new, right_num_inserted) = right_result?;
             current_node.set_child(&mut right_node)?;
             right_node.write_to_storage(storage, right_is_new).await?;
             num_inserted += right_num_inserted;
         }
 
-        // join on the handle for the left child, if present
-        if let Some(handle) = maybe_handle {
-            let (mut left_node, left_is_new, left_num_inserted) = handle
-                .await
-                .map_err(|e| AkdError::Parallelism(ParallelismError::JoinErr(e.to_string())))??;
+        if let Some(left_result) = left_result {
+            let (mut left_node, left_is_new, left_num_inserted) = left_result??;
             current_node.set_child(&mut left_node)?;
             left_node.write_to_storage(storage, left_is_new).await?;
             num_inserted += left_num_inserted;
